@@ -515,6 +515,49 @@ func TestCheck(t *testing.T) {
 				}
 			}
 		}
+		// (g) an identity listed twice (the list is a list, not a set): every entry
+		// is verified, not only the last one that names an identity. The duplicated
+		// entry is appended and the whole ad signed properly; then the EARLIER
+		// occurrence is altered.
+		if s.nEP >= 1 {
+			for di, dupOf := range []int{0, len(ad.ExtendedProvider.Providers) - 1} {
+				key := fmt.Sprintf("%s|duplicate-identity|%d", base, di)
+				r.Eval(key, true)
+				m := cloneAd(ad)
+				orig := m.ExtendedProvider.Providers[dupOf]
+				dup := schema.Provider{ID: orig.ID, Addresses: append([]string{"/ip4/10.9.8.7/tcp/1"}, orig.Addresses...), Metadata: []byte("second-entry-of-the-same-identity")}
+				m.ExtendedProvider.Providers = append(m.ExtendedProvider.Providers, dup)
+				var serr error
+				if pn, pm := vp.Guard(func() { serr = m.SignWithExtendedProviders(signer.Priv, c.keyFor) }); pn || serr != nil {
+					r.Outcome("duplicate-identity-not-signable")
+					_ = pm
+					continue
+				}
+				if _, err, pn, pm := verify(m); pn || err != nil {
+					r.Outcome("duplicate-identity-rejected-as-a-whole")
+					_ = pm
+					continue
+				}
+				for _, alt := range []string{"metadata", "address", "signature"} {
+					m2 := cloneAd(m)
+					e := &m2.ExtendedProvider.Providers[dupOf]
+					switch alt {
+					case "metadata":
+						e.Metadata = append(append([]byte(nil), e.Metadata...), 0x01)
+					case "address":
+						e.Addresses = append(append([]string(nil), e.Addresses...), "/ip4/6.6.6.6/tcp/6")
+					case "signature":
+						e.Signature = append([]byte(nil), e.Signature...)
+						e.Signature[len(e.Signature)/2] ^= 0x40
+					}
+					if _, err, pn, pm := verify(m2); pn {
+						r.Violation("verify:panic:duplicate-identity", key, firstLine(pm), nil)
+					} else if err == nil {
+						r.Violation("verify:accepted-changed-value:earlier-entry-of-a-repeated-identity:"+alt, key, fmt.Sprintf("identity %s is listed twice; the %s of its first entry was changed after signing and the ad still verifies", orig.ID, alt), nil)
+					}
+				}
+			}
+		}
 		if !deep {
 			return
 		}
